@@ -211,6 +211,12 @@ type opT struct {
 	Delta        int64  `json:"delta,omitempty"`
 	Batch        []opT  `json:"batch,omitempty"`
 	Skipped      string `json:"skipped,omitempty"`
+	// window bounds given as absolute UnixNano (may be 0 = the epoch, or negative); override FromT/ToT
+	FromAbs *int64 `json:"fromAbs,omitempty"`
+	ToAbs   *int64 `json:"toAbs,omitempty"`
+	// patchexp: PatchExpiredTreasures(HowMany, one op, meta per ExpAct/SetUpdatedAt; OpsOnly = no meta at all)
+	OpsOnly bool     `json:"opsOnly,omitempty"`
+	Patched []string `json:"patched,omitempty"`
 	Shifted      []string `json:"shifted,omitempty"`
 	Page    []string `json:"page,omitempty"` // observed (keys), filled by the run
 	Failed  string `json:"failed,omitempty"`
@@ -432,6 +438,53 @@ func runCase(srv *rig.Server, c *caseT) (term string, nontrivial bool, reads int
 			r.vt, r.msgpack = vtInt64, false
 			terms = append(terms, fmt.Sprintf("(OSet %s %d%%N [%d]%%Z None None None, None)", skeyBytes(o.Key), vtInt64, resp.GetValue()))
 			touch()
+		case "patchexp":
+			// PatchExpiredTreasures: up to HowMany expired records (oldest expiry first) get one op and
+			// the meta; which ones were selected is C11/C30's business, here every record reported
+			// PATCHED is an in-place patch (M2); the others are unchanged but still pass through the
+			// remove-from-DESC / ReindexExpiration / re-add choreography
+			req := &hydrapb.PatchExpiredTreasuresRequest{IslandID: 1, SwampName: c.Swamp, HowMany: o.HowMany,
+				Ops: []*hydrapb.PatchOp{{Op: hydrapb.PatchOp_SET, Path: "p", Value: []byte{byte(oi % 100)}}}}
+			if !o.OpsOnly {
+				req.Meta = &hydrapb.PatchMeta{SetUpdatedAt: o.SetUpdatedAt}
+				switch o.ExpAct {
+				case "clear":
+					req.Meta.ClearExpiredAt = true
+				case "set":
+					req.Meta.SetExpiredAt = ts(o.Expiry)
+				}
+			}
+			resp, err := srv.GW.PatchExpiredTreasures(ctx, req)
+			if err != nil || resp == nil {
+				o.Failed = fmt.Sprint("patch expired failed: ", err)
+				continue
+			}
+			o.Patched = []string{}
+			for _, pr := range resp.GetPatched() {
+				if pr.GetStatus() != hydrapb.PatchResult_PATCHED {
+					continue
+				}
+				o.Patched = append(o.Patched, pr.Key)
+				uT, eT := "None", "None"
+				if !o.OpsOnly && o.SetUpdatedAt {
+					if t := readBack(pr.Key); t != nil {
+						uT = obsZ(t.UpdatedAt)
+					} else {
+						o.Failed = "patched record cannot be read back"
+					}
+				}
+				if r := live[pr.Key]; r != nil && !o.OpsOnly {
+					switch o.ExpAct {
+					case "clear":
+						eT = "(Some 0%Z)"
+						r.hasExp = false
+					case "set":
+						eT = optZ(o.Expiry)
+					}
+				}
+				terms = append(terms, fmt.Sprintf("(OPatch %s None %s %s, None)", skeyBytes(pr.Key), uT, eT))
+			}
+			touch()
 		case "shiftexp":
 			nexp := 0
 			for _, r := range live {
@@ -481,17 +534,24 @@ func runCase(srv *rig.Server, c *caseT) (term string, nontrivial bool, reads int
 			if o.Desc {
 				ord = hydrapb.OrderType_DESC
 			}
+			fromTS, toTS, fromZ, toZ := ts(o.FromT), ts(o.ToT), optZ(o.FromT), optZ(o.ToT)
+			if o.FromAbs != nil {
+				fromTS, fromZ = timestamppb.New(time.Unix(0, *o.FromAbs)), fmt.Sprintf("(Some (%d)%%Z)", *o.FromAbs)
+			}
+			if o.ToAbs != nil {
+				toTS, toZ = timestamppb.New(time.Unix(0, *o.ToAbs)), fmt.Sprintf("(Some (%d)%%Z)", *o.ToAbs)
+			}
 			if o.Stream {
 				fs := &fakeStream{ctx: ctx}
 				err = srv.GW.GetByIndexStream(&hydrapb.GetByIndexStreamRequest{IslandID: 1, SwampName: c.Swamp,
 					IndexType: hydrapb.IndexType_Type(o.Index), OrderType: ord, From: o.From, Limit: o.Limit,
-					FromTime: ts(o.FromT), ToTime: ts(o.ToT)}, fs)
+					FromTime: fromTS, ToTime: toTS}, fs)
 				out = fs.out
 			} else {
 				var resp *hydrapb.GetByIndexResponse
 				resp, err = srv.GW.GetByIndex(ctx, &hydrapb.GetByIndexRequest{IslandID: 1, SwampName: c.Swamp,
 					IndexType: hydrapb.IndexType_Type(o.Index), OrderType: ord, From: o.From, Limit: o.Limit,
-					FromTime: ts(o.FromT), ToTime: ts(o.ToT)})
+					FromTime: fromTS, ToTime: toTS})
 				if err == nil && resp == nil {
 					err = fmt.Errorf("nil response (panic recovered in the gateway)")
 				}
@@ -533,7 +593,7 @@ func runCase(srv *rig.Server, c *caseT) (term string, nontrivial bool, reads int
 				dirty[fam] = false
 			}
 			terms = append(terms, fmt.Sprintf("(ORead %s %s %d%%N %d%%N %s %s, %s)", idxTerm(o.Index), common.Bool(!o.Desc),
-				o.From, o.Limit, optZ(o.FromT), optZ(o.ToT), obs))
+				o.From, o.Limit, fromZ, toZ, obs))
 		}
 	}
 	return "[" + strings.Join(terms, ";\n   ") + "]", nontrivial, reads
@@ -671,8 +731,23 @@ func genCase(r *common.Rng, maxOps int) caseT {
 			mkPatch(patchKeys[r.Intn(len(patchKeys))], false)
 		case x < 45:
 			ops = append(ops, opT{Kind: "incr", Key: setKey(), Delta: int64(r.Intn(9)) - 3})
-		case x < 48:
+		case x < 47:
 			ops = append(ops, opT{Kind: "shiftexp", HowMany: int32(1 + r.Intn(2))})
+		case x < 51:
+			o := opT{Kind: "patchexp", HowMany: int32(1 + r.Intn(4)), OpsOnly: r.Chance(40), SetUpdatedAt: r.Bool()}
+			switch y := r.Intn(100); {
+			case y < 30:
+				o.ExpAct, o.Expiry = "set", instants[r.Intn(len(instants))]
+				if r.Chance(40) {
+					o.Expiry = farFuture
+				}
+			case y < 45:
+				o.ExpAct = "clear"
+			}
+			ops = append(ops, o)
+			if r.Chance(70) { // look at the expiry index right away, mostly descending
+				ops = append(ops, opT{Kind: "read", Index: 1, Desc: r.Chance(65), Stream: r.Chance(30)})
+			}
 		case x < 56:
 			k := keys[r.Intn(nkeys)]
 			if live[k] && nlive > 1 {
@@ -703,7 +778,21 @@ func genCase(r *common.Rng, maxOps int) caseT {
 			}
 			if o.Index >= 1 && o.Index <= 3 {
 				a, b := instants[r.Intn(len(instants))], instants[r.Intn(len(instants))]
-				switch r.Intn(7) {
+				abs := func() *int64 { // bounds at and around the Unix epoch
+					v := []int64{0, 0, -1, 1, -1_000_000_000, -86_400_000_000_000, 999_999_999, 1_000_000_000}[r.Intn(8)]
+					return &v
+				}
+				switch r.Intn(9) {
+				case 7: // upper bound at/before the epoch (alone or with a lower bound)
+					o.ToAbs = abs()
+					if r.Bool() {
+						o.FromAbs = abs()
+					}
+				case 8: // lower bound at/before the epoch, upper bound none or an instant
+					o.FromAbs = abs()
+					if r.Bool() {
+						o.ToT = a
+					}
 				case 0: // none
 				case 1:
 					o.FromT = a
@@ -730,6 +819,8 @@ func genCase(r *common.Rng, maxOps int) caseT {
 	}
 	return caseT{Tag: tag, Ops: ops}
 }
+
+func i64(v int64) *int64 { return &v }
 
 func fv(vt int, i int64) *value { return &value{Vt: vt, I: i} }
 
@@ -776,6 +867,20 @@ func witnesses() []caseT {
 			{Kind: "set", Key: "a", Val: fv(vtInt64, 5), Updated: s[1]}, {Kind: "set", Key: "b", Val: fv(vtInt64, 2), Updated: s[3]}, rd(7, false, 0, 0), rd(3, false, 0, 0),
 			{Kind: "setbatch", Batch: []opT{{Kind: "set", Key: "a", Val: fv(vtInt64, 1), Updated: s[6]}, {Kind: "set", Key: "c", Val: fv(vtInt64, 9), Updated: s[0]}, {Kind: "set", Key: "a", Val: fv(vtInt64, 7), Updated: s[2]}}},
 			rd(7, false, 0, 0), rd(3, false, 0, 0)}},
+		{Tag: "witness_patch_expired_ops_only_keeps_both_expiry_indexes", Ops: []opT{
+			{Kind: "patch", Key: "a", ExpAct: "set", Expiry: s[0]}, {Kind: "patch", Key: "b", ExpAct: "set", Expiry: s[1]},
+			{Kind: "patch", Key: "c", ExpAct: "set", Expiry: s[3]}, {Kind: "set", Key: "d", Val: fv(vtInt64, 4), Expiry: s[2]},
+			rd(1, false, 0, 0), rd(1, true, 0, 0),
+			{Kind: "patchexp", HowMany: 3, OpsOnly: true}, rd(1, true, 0, 0), rd(1, false, 0, 0), rd(1, true, s[0], s[3]),
+			{Kind: "patchexp", HowMany: 2, SetUpdatedAt: true}, rd(1, true, 0, 0), rd(3, true, 0, 0),
+			{Kind: "patchexp", HowMany: 2, ExpAct: "set", Expiry: s[6]}, rd(1, true, 0, 0), rd(1, false, 0, 0),
+			{Kind: "patchexp", HowMany: 1, ExpAct: "clear"}, rd(1, true, 0, 0), rd(1, false, 0, 0)}},
+		{Tag: "witness_window_bounds_at_and_before_the_epoch", Ops: []opT{
+			{Kind: "set", Key: "a", Val: fv(vtInt64, 1), Created: s[0], Updated: s[1], Expiry: s[3]},
+			{Kind: "set", Key: "b", Val: fv(vtInt64, 2), Created: s[1], Updated: s[0], Expiry: s[0]},
+			{Kind: "read", Index: 2, ToAbs: i64(0)}, {Kind: "read", Index: 2, Desc: true, ToAbs: i64(-1_000_000_000)},
+			{Kind: "read", Index: 3, FromAbs: i64(0)}, {Kind: "read", Index: 1, FromAbs: i64(-1), ToAbs: i64(0), Stream: true},
+			{Kind: "read", Index: 1, Desc: true, FromAbs: i64(0), ToT: s[3]}, {Kind: "read", Index: 3, ToAbs: i64(1), Stream: true}}},
 		{Tag: "witness_mixed_value_types", Ops: []opT{
 			{Kind: "set", Key: "a", Val: fv(vtInt64, 5)}, {Kind: "set", Key: "b", Val: &value{Vt: vtString, S: "x"}}, {Kind: "set", Key: "c", Val: fv(vtInt64, 1)},
 			rd(7, false, 0, 0), rd(14, false, 0, 0), rd(7, true, 0, 0)}},
@@ -785,7 +890,7 @@ func witnesses() []caseT {
 func main() {
 	a := common.ParseArgs()
 	run := common.NewRun(a, "C07", "HV.Swamp.Index")
-	run.Meta.Rule = "a case is one history (typed Sets with explicit created/updated/expiry instants incl. ties, updates moving the sort attribute, multi-key Sets with duplicate keys, no-effect Sets, PatchTreasures with meta that sets/moves/CLEARS the expiry and stamps created/updated, IncrementInt64, ShiftExpiredTreasures, deletes, 3-12 keys) on one swamp of the real engine, interleaved with GetByIndex/GetByIndexStream reads; every read page is judged by valid_page and, on tie-free states, compared with the model; non-trivial = some read returned a non-empty page from an index that had been built by an earlier read and was maintained (insert/update/delete) since"
+	run.Meta.Rule = "a case is one history (typed Sets with explicit created/updated/expiry instants incl. ties, updates moving the sort attribute, multi-key Sets with duplicate keys, no-effect Sets, PatchTreasures with meta that sets/moves/CLEARS the expiry and stamps created/updated, IncrementInt64, ShiftExpiredTreasures, PatchExpiredTreasures (ops-only / meta / moved / cleared expiry) followed by expiry reads, deletes, 3-12 keys; windows incl. bounds at and before the Unix epoch) on one swamp of the real engine, interleaved with GetByIndex/GetByIndexStream reads; every read page is judged by valid_page and, on tie-free states, compared with the model; non-trivial = some read returned a non-empty page from an index that had been built by an earlier read and was maintained (insert/update/delete) since"
 	rng := common.NewRng(a.Seed, "C07")
 	rig.Quiet()
 	root, err := os.MkdirTemp("", "c07")
@@ -843,6 +948,9 @@ func main() {
 				if o.Stream {
 					run.Hist("read_stream")
 				}
+				if o.FromAbs != nil || o.ToAbs != nil {
+					run.Hist("read_window_epoch_bound")
+				}
 				if len(o.Page) > 0 {
 					run.Hist("read_nonempty")
 				}
@@ -850,6 +958,12 @@ func main() {
 				run.Hist("op_" + o.Kind + "_skipped")
 			} else {
 				run.Hist("op_" + o.Kind)
+				if o.Kind == "patchexp" {
+					run.HistN("patchexp_records_patched", len(o.Patched))
+					if o.OpsOnly {
+						run.Hist("op_patchexp_ops_only")
+					}
+				}
 				if o.Kind == "patch" && o.ExpAct != "" {
 					run.Hist("op_patch_expiry_" + o.ExpAct)
 				}
